@@ -1,6 +1,10 @@
 package props
 
-import "verif/mc/refsem"
+import (
+	"strings"
+
+	"verif/mc/refsem"
+)
 
 // Special values: fixed programs around values that an alphabet of "representative" values does not hold - doubles no numeral
 // denotes, keys that look like numbers or are empty, characters with a special encoding, strings that look like keywords. The
@@ -39,7 +43,7 @@ func specialFamilies() []*scaleFam {
 		textFam("C07", "for-in over strings and keys with a special encoding", []textProg{
 			{Prog: "{ c = 0; for (ch, off in $) { print off, ch, ch.length(); c++; if (c > 20) { break } } print \"count\", c }\n", Input: "[\"a\\ufffdb\", \"\\ud800x\", \"e\\u0301\", \"\\u2028|\\u2029\", \"\U0001F600z\", \"\", \"\\ufffd\", \"\\ufffd\\ufffd\", \"\\u0000a\", \"é€\"]"},
 			{Prog: "{ for (ch in $) { if (ch == \"\\t\") { continue } out = out + ch + \".\" } }\nEND { print out }\n", Input: "[\"a\\tb\", \"\\ufffd\\t\\ufffd\", \"\\ud83d\\ude00\\ud83d\"]"},
-			{Prog: "{ n = 0; for (k, v in $) { n++; print n, k, v; if (k == \"created_by\") { break } } print \"stopped after\", n; for (k in $) { if (k == \"customer_zip\") { continue } keys = keys + \",\" + k } print keys }\n", Input: `[{"id": 5, "customer_zip": 3, "created_by": 2, "customer_name": 4, "created_at": 1, "customer_zipcode": 6, "created_at_utc": 7}]`},
+			{Prog: "{ n = 0; for (k, v in $) { n++; print n, k, v; if (k == \"created_by\") { break } } print \"stopped after\", n; for (k in $) { if (k == \"customer_zip\") { continue } keys = keys + \",\" + k } print keys }\n", Input: `[{"id": 5, "customer_zip": 3, "created_by": 2, "customer_name": 4, "created_at": 1, "customer_zipcode": 6, "created_at_utc": 7, "abcdefgh_4": 8, "abcdefgh_1": 9, "abcdefgh_3": 10, "abcdefgh_2": 11, "abcdefgh_0": 12}]`},
 			{Prog: "function find(o, want) { for (k, v in o) { if (v == want) { return k } } return \"none\" }\n{ print find($, 4), find($, 1), find($, 9) }\n", Input: `[{"abcdefgh_long_b": 1, "abcdefgh_long_a": 4, "abcdefgh": 2, "abcdefghi": 3, "abcdefg": 5}]`},
 		}),
 		textFam("C02", "pattern values that look false but are not", []textProg{
@@ -99,16 +103,5 @@ func c16Doubles() string {
 		h := float64(k) / 1.1e5
 		parts = append(parts, refsem.FormatNum(f), refsem.FormatNum(g), refsem.FormatNum(h), refsem.FormatNum(1/float64(k*11)))
 	}
-	return "[" + joinStrings(parts, ",") + "]"
-}
-
-func joinStrings(p []string, sep string) string {
-	out := ""
-	for i, s := range p {
-		if i > 0 {
-			out += sep
-		}
-		out += s
-	}
-	return out
+	return "[" + strings.Join(parts, ",") + "]"
 }
